@@ -646,3 +646,294 @@ Check C05_emit_equiv_first_order_evaluator_all :
     AD release (binop_all o) (builtin_all o) d fr' this'
        (VLam id' params (subst true (scope_map nanfix true sv) body) []) args st.
 Print Assumptions C05_emit_equiv_first_order_evaluator_all.
+
+(* ============================================================================================
+   NaN / both-quote captured data (builder xc05nan; proofs/EmitNqLit.v, EmitNqSound.v, EmitNqHO*.v;
+   definitions coq/EmitNq.v).  The two classes the earlier theorems exclude through emittable_gen /
+   emit_ok are now INSIDE: their literals are the operator expressions `(0/0)` and the `+` chain of string literals,
+   related to the value through the two facts about `/` and `+` in [binop_lit_ok].
+   ============================================================================================ *)
+(* the modules of the copies are Required, NOT Imported: their lemma / relation names coincide with those of
+   EmitSound.v / EmitHO*.v and must not shadow them for text appended after this block *)
+Require Import Blots.EmitNq Blots.proofs.EmitNqLit.
+Require Blots.proofs.EmitNqSound Blots.proofs.EmitNqHO Blots.proofs.EmitNqHOSim Blots.proofs.EmitNqHOOps
+        Blots.proofs.EmitNqHOTop Blots.proofs.EmitNqHOOpsFull Blots.proofs.EmitNqHOWiden.
+
+(* (1) For EVERY string s — whatever mixture of quote characters — the text value_to_ast writes for it (a plain literal, or
+   the parenthesised `+` chain of the pieces between its double quotes) evaluates to exactly VStr s and leaves store and
+   scope chain unchanged: for every configuration c, every call depth (the depth lives in `apply`), every implementation
+   of the operators that concatenates two strings with `+` (binop_lit_ok; nothing else about the operators is used).
+   Induction over the split of s at double quotes (split_dq_chain).  Record keys use the same text as a computed key. *)
+Theorem C05_lit_both_quote_evaluates :
+  forall release (binop_impl : (callback -> binop -> value -> value -> store -> outcome value * store)) apply, binop_lit_ok binop_impl ->
+  forall s c, evalE release binop_impl apply c (str_to_ast s) = (Ok (VStr s), c).
+Proof. exact lit_both_quote_evaluates. Qed.
+Check C05_lit_both_quote_evaluates :
+  forall release (binop_impl : (callback -> binop -> value -> value -> store -> outcome value * store)) apply, binop_lit_ok binop_impl ->
+  forall s c, evalE release binop_impl apply c (str_to_ast s) = (Ok (VStr s), c).
+Print Assumptions C05_lit_both_quote_evaluates.
+
+(* the repaired NaN literal `(0/0)`: NaN, configuration unchanged.  The model's num has ONE NaN (Num.v: spec_float):
+   sign and payload of a NaN are not represented because blots-core cannot observe them (see notes/ext-c05nan.md) *)
+Theorem C05_lit_nan_evaluates :
+  forall release (binop_impl : (callback -> binop -> value -> value -> store -> outcome value * store)) apply, binop_lit_ok binop_impl ->
+  forall c, evalE release binop_impl apply c (num_to_ast true nnan) = (Ok (VNum nnan), c).
+Proof. exact lit_nan_evaluates. Qed.
+Check C05_lit_nan_evaluates :
+  forall release (binop_impl : (callback -> binop -> value -> value -> store -> outcome value * store)) apply, binop_lit_ok binop_impl ->
+  forall c, evalE release binop_impl apply c (num_to_ast true nnan) = (Ok (VNum nnan), c).
+Print Assumptions C05_lit_nan_evaluates.
+
+(* C05_lit_roundtrip without its two exclusions: first-order data (unique record keys) holding NaN (with the repaired
+   literal: emittable_nq nanfix v = fo v && (nanfix || no NaN)) and strings / record keys with both quote kinds, nested
+   in lists and records at any depth: the literal evaluates to EXACTLY v (same key order) and changes nothing *)
+Theorem C05_lit_roundtrip_nan_quote :
+  forall release (binop_impl : (callback -> binop -> value -> value -> store -> outcome value * store)) apply, binop_lit_ok binop_impl ->
+  forall nanfix dofix v, emittable_nq nanfix v = true ->
+  forall c, evalE release binop_impl apply c (value_to_ast nanfix dofix v) = (Ok v, c).
+Proof. exact lit_roundtrip_nq. Qed.
+Check C05_lit_roundtrip_nan_quote :
+  forall release (binop_impl : (callback -> binop -> value -> value -> store -> outcome value * store)) apply, binop_lit_ok binop_impl ->
+  forall nanfix dofix v, emittable_nq nanfix v = true ->
+  forall c, evalE release binop_impl apply c (value_to_ast nanfix dofix v) = (Ok v, c).
+Print Assumptions C05_lit_roundtrip_nan_quote.
+
+(* the transcribed `/` and `+` (EvalInst.binop_impl = Binop.eval_binop, and the complete table of EvalAll) satisfy the hypothesis *)
+Theorem C05_binop_lit_ok_inst :
+  binop_lit_ok binop_impl /\ forall o, binop_lit_ok (binop_all o).
+Proof. split; [exact binop_lit_ok_inst|exact binop_lit_ok_all]. Qed.
+Check C05_binop_lit_ok_inst :
+  binop_lit_ok binop_impl /\ forall o, binop_lit_ok (binop_all o).
+Print Assumptions C05_binop_lit_ok_inst.
+
+(* the class of the earlier theorems is inside the new one *)
+Theorem C05_emittable_gen_inside_nq :
+  forall nanfix v, emittable_gen v = true -> emittable_nq nanfix v = true.
+Proof. exact emittable_gen_nq. Qed.
+Check C05_emittable_gen_inside_nq :
+  forall nanfix v, emittable_gen v = true -> emittable_nq nanfix v = true.
+Print Assumptions C05_emittable_gen_inside_nq.
+
+(* (2) C05_emit_equiv_first_order_partial with NaN-holding and both-quote-holding captured data INSIDE: same statement,
+   captured values emittable_nq instead of emittable_gen, and one more hypothesis on the operator implementation
+   (binop_lit_ok).  Same outcome AND same store, every depth, any two call sites.  proofs/EmitNqSound.v *)
+Theorem C05_emit_equiv_first_order_nan_quote_generic :
+  forall release binop_impl builtin_impl, impl_lf_respecting binop_impl builtin_impl -> binop_lit_ok binop_impl ->
+  forall nanfix d fr fr' this this' id id' params body sv args st,
+    first_order_body body = true ->
+    free_vars body (map arg_name params ++ map fst sv) = [] ->
+    forallb (fun kv => emittable_nq nanfix (snd kv)) sv = true ->
+    (forall x, special_name x = true -> rec_get sv x = None) ->
+    (forall x, In x (map arg_name params) -> rec_get sv x = None) ->
+    rec_get sv "inputs"%string = None ->
+    (forall n, lam_name st id = Some n -> rec_get sv n = None) ->
+    lfs args = true ->
+    AD release binop_impl builtin_impl d fr this (VLam id params body sv) args st =
+    AD release binop_impl builtin_impl d fr' this'
+       (VLam id' params (subst true (scope_map nanfix true sv) body) []) args st.
+Proof. exact Blots.proofs.EmitNqSound.emit_equiv_first_order_nq. Qed.
+Check C05_emit_equiv_first_order_nan_quote_generic :
+  forall release binop_impl builtin_impl, impl_lf_respecting binop_impl builtin_impl -> binop_lit_ok binop_impl ->
+  forall nanfix d fr fr' this this' id id' params body sv args st,
+    first_order_body body = true ->
+    free_vars body (map arg_name params ++ map fst sv) = [] ->
+    forallb (fun kv => emittable_nq nanfix (snd kv)) sv = true ->
+    (forall x, special_name x = true -> rec_get sv x = None) ->
+    (forall x, In x (map arg_name params) -> rec_get sv x = None) ->
+    rec_get sv "inputs"%string = None ->
+    (forall n, lam_name st id = Some n -> rec_get sv n = None) ->
+    lfs args = true ->
+    AD release binop_impl builtin_impl d fr this (VLam id params body sv) args st =
+    AD release binop_impl builtin_impl d fr' this'
+       (VLam id' params (subst true (scope_map nanfix true sv) body) []) args st.
+Print Assumptions C05_emit_equiv_first_order_nan_quote_generic.
+
+(* ... for the transcribed evaluator, no hypothesis on the implementations (C05_emit_equiv_first_order_evaluator widened) *)
+Theorem C05_emit_equiv_first_order_nan_quote :
+  forall release nanfix d fr fr' this this' id id' params body sv args st,
+    first_order_body body = true ->
+    free_vars body (map arg_name params ++ map fst sv) = [] ->
+    forallb (fun kv => emittable_nq nanfix (snd kv)) sv = true ->
+    (forall x, special_name x = true -> rec_get sv x = None) ->
+    (forall x, In x (map arg_name params) -> rec_get sv x = None) ->
+    rec_get sv "inputs"%string = None ->
+    (forall n, lam_name st id = Some n -> rec_get sv n = None) ->
+    lfs args = true ->
+    AD release binop_impl builtin_impl d fr this (VLam id params body sv) args st =
+    AD release binop_impl builtin_impl d fr' this'
+       (VLam id' params (subst true (scope_map nanfix true sv) body) []) args st.
+Proof. exact Blots.proofs.EmitNqSound.emit_equiv_first_order_nq_evaluator. Qed.
+Check C05_emit_equiv_first_order_nan_quote :
+  forall release nanfix d fr fr' this this' id id' params body sv args st,
+    first_order_body body = true ->
+    free_vars body (map arg_name params ++ map fst sv) = [] ->
+    forallb (fun kv => emittable_nq nanfix (snd kv)) sv = true ->
+    (forall x, special_name x = true -> rec_get sv x = None) ->
+    (forall x, In x (map arg_name params) -> rec_get sv x = None) ->
+    rec_get sv "inputs"%string = None ->
+    (forall n, lam_name st id = Some n -> rec_get sv n = None) ->
+    lfs args = true ->
+    AD release binop_impl builtin_impl d fr this (VLam id params body sv) args st =
+    AD release binop_impl builtin_impl d fr' this'
+       (VLam id' params (subst true (scope_map nanfix true sv) body) []) args st.
+Print Assumptions C05_emit_equiv_first_order_nan_quote.
+
+(* ... and for the complete operator table / built-in set of EvalAll.v, every oracle *)
+Theorem C05_emit_equiv_first_order_nan_quote_all :
+  forall o release nanfix d fr fr' this this' id id' params body sv args st,
+    first_order_body body = true ->
+    free_vars body (map arg_name params ++ map fst sv) = [] ->
+    forallb (fun kv => emittable_nq nanfix (snd kv)) sv = true ->
+    (forall x, special_name x = true -> rec_get sv x = None) ->
+    (forall x, In x (map arg_name params) -> rec_get sv x = None) ->
+    rec_get sv "inputs"%string = None ->
+    (forall n, lam_name st id = Some n -> rec_get sv n = None) ->
+    lfs args = true ->
+    AD release (binop_all o) (builtin_all o) d fr this (VLam id params body sv) args st =
+    AD release (binop_all o) (builtin_all o) d fr' this'
+       (VLam id' params (subst true (scope_map nanfix true sv) body) []) args st.
+Proof. exact Blots.proofs.EmitNqSound.emit_equiv_first_order_nq_all. Qed.
+Check C05_emit_equiv_first_order_nan_quote_all :
+  forall o release nanfix d fr fr' this this' id id' params body sv args st,
+    first_order_body body = true ->
+    free_vars body (map arg_name params ++ map fst sv) = [] ->
+    forallb (fun kv => emittable_nq nanfix (snd kv)) sv = true ->
+    (forall x, special_name x = true -> rec_get sv x = None) ->
+    (forall x, In x (map arg_name params) -> rec_get sv x = None) ->
+    rec_get sv "inputs"%string = None ->
+    (forall n, lam_name st id = Some n -> rec_get sv n = None) ->
+    lfs args = true ->
+    AD release (binop_all o) (builtin_all o) d fr this (VLam id params body sv) args st =
+    AD release (binop_all o) (builtin_all o) d fr' this'
+       (VLam id' params (subst true (scope_map nanfix true sv) body) []) args st.
+Print Assumptions C05_emit_equiv_first_order_nan_quote_all.
+
+(* (3) the hypotheses are satisfiable: a closure capturing a record that holds [NaN, a string with both quote kinds] and a key with both
+   quote kinds; outside emittable_gen, inside emittable_nq; original and reloaded emission computed *)
+Definition nq_data : value :=
+  VRec [("d"%string, VList [VNum nnan; VStr "a""b'c"%string]); ("k""'"%string, VBool true)].
+Definition nq_body : expr :=
+  EList [Cm [] (EDot (EId "r"%string) "d"%string) None; Cm [] (EAccess (EId "r"%string) (EId "x"%string)) None].
+Definition nq_fun : value := VLam 0%nat [AReq "x"%string] nq_body [("r"%string, nq_data)].
+Example C05_nan_quote_premises_example :
+  emittable_gen nq_data = false /\ emittable_nq true nq_data = true /\
+  first_order_body nq_body = true /\
+  free_vars nq_body (map arg_name [AReq "x"%string] ++ map fst [("r"%string, nq_data)]) = [] /\
+  call_on nq_fun (VStr "k""'"%string) = Ok (VList [VList [VNum nnan; VStr "a""b'c"%string]; VBool true]) /\
+  call_on (reloaded true true nq_fun) (VStr "k""'"%string) = call_on nq_fun (VStr "k""'"%string).
+Proof. vm_compute. repeat split; reflexivity. Qed.
+
+(* ---- higher-order: the value relation "after emit + reload" over the widened class ----
+   emit_ok_nq opok biok nanfix v  = EmitHO.emit_ok with  VNum x => nanfix || not NaN,  VStr _ => true,  no condition on
+   record keys (still unique); everything else (hob bodies, closed after capture, captured names) unchanged.
+   vrel_nq = EmitHO.vrel over that class (R_lam: the inlined captured values are emit_ok_nq).  The proofs are the
+   tower EmitHO / Fv / Sim / Ops / OpsFull / Top re-checked over the new class (proofs/EmitNqHO*.v); what changes is
+   lit_rel (the literal of an emittable value evaluates to a related value): its NaN, string and record-key cases use
+   C05_lit_nan_evaluates / C05_lit_both_quote_evaluates, hence the extra hypothesis binop_lit_ok. *)
+Notation emit_ok_nq := Blots.proofs.EmitNqHO.emit_ok.
+Notation vrel_nq := Blots.proofs.EmitNqHO.vrel.
+Notation lrel_nq := Blots.proofs.EmitNqHO.lrel.
+Notation orel_nq := Blots.proofs.EmitNqHO.orel.
+Notation impl_rel_respecting_nq := Blots.proofs.EmitNqHOSim.impl_rel_respecting.
+
+(* the earlier class is inside the new one (closures at any capture depth) *)
+Theorem C05_emit_ok_widened :
+  forall opok biok nanfix v, emit_ok opok biok v = true -> emit_ok_nq opok biok nanfix v = true.
+Proof. exact Blots.proofs.EmitNqHOWiden.emit_ok_widens. Qed.
+Check C05_emit_ok_widened :
+  forall opok biok nanfix v, emit_ok opok biok v = true -> emit_ok_nq opok biok nanfix v = true.
+Print Assumptions C05_emit_ok_widened.
+
+(* C05_ho_simulation over the widened relation: generic in the implementations up to impl_rel_respecting and binop_lit_ok *)
+Theorem C05_ho_simulation_nan_quote :
+  forall opok biok nanfix release binop_impl builtin_impl,
+    impl_rel_respecting_nq opok biok nanfix binop_impl builtin_impl -> binop_lit_ok binop_impl ->
+    forall d fr fr' this this' f f' args args' st st',
+      vrel_nq opok biok nanfix f f' -> lrel_nq opok biok nanfix args args' ->
+      orel_nq opok biok nanfix (fst (AD release binop_impl builtin_impl d fr this f args st))
+                               (fst (AD release binop_impl builtin_impl d fr' this' f' args' st')).
+Proof. exact Blots.proofs.EmitNqHOSim.ho_simulation. Qed.
+Check C05_ho_simulation_nan_quote :
+  forall opok biok nanfix release binop_impl builtin_impl,
+    impl_rel_respecting_nq opok biok nanfix binop_impl builtin_impl -> binop_lit_ok binop_impl ->
+    forall d fr fr' this this' f f' args args' st st',
+      vrel_nq opok biok nanfix f f' -> lrel_nq opok biok nanfix args args' ->
+      orel_nq opok biok nanfix (fst (AD release binop_impl builtin_impl d fr this f args st))
+                               (fst (AD release binop_impl builtin_impl d fr' this' f' args' st')).
+Print Assumptions C05_ho_simulation_nan_quote.
+
+(* the transcribed operators (all but == != .== .!=) and every built-in but unique / includes respect the widened relation: the SAME exclusion (F53) as before, nothing new *)
+Theorem C05_impl_rel_respecting_nan_quote :
+  forall nanfix, impl_rel_respecting_nq eqfree biok_full nanfix binop_impl EvalFull.builtin_full.
+Proof. exact Blots.proofs.EmitNqHOOpsFull.impl_rel_full_all. Qed.
+Check C05_impl_rel_respecting_nan_quote :
+  forall nanfix, impl_rel_respecting_nq eqfree biok_full nanfix binop_impl EvalFull.builtin_full.
+Print Assumptions C05_impl_rel_respecting_nan_quote.
+
+(* C05_emit_equiv_higher_order_full with NaN-holding and both-quote-holding captured data INSIDE (nested in lists /
+   records / captured closures at any depth; also in the arguments): original and reloaded emission give related outcomes
+   from any call sites / stores / depths, first-order results EQUAL (the model has one NaN), depth error on both sides
+   or on neither.  The only exclusion left is the F53 equality exclusion (eqfree, biok_full; exact by
+   C05_all_builtins_unrestricted_refuted / C05_equality_exclusion_matches_source) and the body conditions of hob
+   (inputs / #ref: F9 of C04; stray assignment: F32 of C04; output).  For nanfix = false (the code before b235c37) NaN
+   stays excluded, as it must (C05_lit_nan_current_refuted) *)
+Theorem C05_emit_equiv_higher_order_nan_quote :
+  forall release nanfix d fr fr' this this' id id' ps b sc args st st' r,
+    emit_ok_nq eqfree biok_full nanfix (VLam id ps b sc) = true ->
+    forallb (emit_ok_nq eqfree biok_full nanfix) args = true ->
+    fst (AD release binop_impl EvalFull.builtin_full d fr this (VLam id ps b sc) args st) = r ->
+    exists r', fst (AD release binop_impl EvalFull.builtin_full d fr' this'
+                       (VLam id' ps (subst true (scope_map nanfix true sc) b) []) args st') = r' /\
+      orel_nq eqfree biok_full nanfix r r' /\
+      (forall v, r = Ok v -> lf v = true -> r' = Ok v) /\ (r = ErrDepth <-> r' = ErrDepth).
+Proof. exact Blots.proofs.EmitNqHOOpsFull.emit_equiv_ho_same_args_all. Qed.
+Check C05_emit_equiv_higher_order_nan_quote :
+  forall release nanfix d fr fr' this this' id id' ps b sc args st st' r,
+    emit_ok_nq eqfree biok_full nanfix (VLam id ps b sc) = true ->
+    forallb (emit_ok_nq eqfree biok_full nanfix) args = true ->
+    fst (AD release binop_impl EvalFull.builtin_full d fr this (VLam id ps b sc) args st) = r ->
+    exists r', fst (AD release binop_impl EvalFull.builtin_full d fr' this'
+                       (VLam id' ps (subst true (scope_map nanfix true sc) b) []) args st') = r' /\
+      orel_nq eqfree biok_full nanfix r r' /\
+      (forall v, r = Ok v -> lf v = true -> r' = Ok v) /\ (r = ErrDepth <-> r' = ErrDepth).
+Print Assumptions C05_emit_equiv_higher_order_nan_quote.
+
+(* related function-free values are EQUAL also in the widened relation (NaN included: one NaN in the model) *)
+Theorem C05_related_nan_quote_function_free_equal :
+  forall opok biok nanfix v v', vrel_nq opok biok nanfix v v' -> BuiltinsText.has_function v = false -> v = v'.
+Proof. exact Blots.proofs.EmitNqHOOpsFull.vrel_nofun_eq. Qed.
+Check C05_related_nan_quote_function_free_equal :
+  forall opok biok nanfix v v', vrel_nq opok biok nanfix v v' -> BuiltinsText.has_function v = false -> v = v'.
+Print Assumptions C05_related_nan_quote_function_free_equal.
+
+(* the reloaded emission of a widened-emittable closure is related to it *)
+Theorem C05_reload_related_nan_quote :
+  forall opok biok nanfix id id' ps b sc,
+    emit_ok_nq opok biok nanfix (VLam id ps b sc) = true ->
+    vrel_nq opok biok nanfix (VLam id ps b sc) (VLam id' ps (subst true (scope_map nanfix true sc) b) []).
+Proof. exact Blots.proofs.EmitNqHOTop.reload_rel. Qed.
+Check C05_reload_related_nan_quote :
+  forall opok biok nanfix id id' ps b sc,
+    emit_ok_nq opok biok nanfix (VLam id ps b sc) = true ->
+    vrel_nq opok biok nanfix (VLam id ps b sc) (VLam id' ps (subst true (scope_map nanfix true sc) b) []).
+Print Assumptions C05_reload_related_nan_quote.
+
+(* (3) satisfiable: a closure capturing (a) the record nq_data = {d: [NaN, both-quote string], both-quote key: true} and
+   (b) a closure g that itself captures nq_data and returns a closure over it; outside emit_ok, inside emit_ok_nq;
+   the original and the reloaded emission computed by the evaluator agree *)
+Definition nq_g : value :=
+  VLam 1%nat [AReq "y"%string]
+    (ELam [AReq "z"%string] (EList [Cm [] (EId "y"%string) None; Cm [] (EDot (EId "r"%string) "d"%string) None;
+                                    Cm [] (EId "z"%string) None]))
+    [("r"%string, nq_data)].
+Definition nq_ho_body : expr :=
+  EList [Cm [] (ECall (ECall (EId "g"%string) [EId "x"%string]) [EStr "k""'"%string]) None;
+         Cm [] (EAccess (EId "r"%string) (EId "x"%string)) None].
+Definition nq_ho_fun : value := VLam 0%nat [AReq "x"%string] nq_ho_body [("g"%string, nq_g); ("r"%string, nq_data)].
+Example C05_nan_quote_higher_order_example :
+  emit_ok eqfree biok_full nq_ho_fun = false /\ emit_ok_nq eqfree biok_full true nq_ho_fun = true /\
+  emit_ok_nq eqfree biok_full true (VStr "k""'"%string) = true /\
+  call_on nq_ho_fun (VStr "k""'"%string) =
+    Ok (VList [VList [VStr "k""'"%string; VList [VNum nnan; VStr "a""b'c"%string]; VStr "k""'"%string]; VBool true]) /\
+  call_on (reloaded true true nq_ho_fun) (VStr "k""'"%string) = call_on nq_ho_fun (VStr "k""'"%string).
+Proof. vm_compute. repeat split; reflexivity. Qed.
